@@ -35,9 +35,17 @@ func procOf(subj string) (proc, name string) {
 }
 
 func (w *World) hasSubst() bool {
+	procs := map[string]bool{}
 	for _, pr := range w.P.Procs {
-		if len(pr.Rules) != 0 {
-			return true
+		procs[pr.ID] = true
+	}
+	for _, pr := range w.P.Procs {
+		for _, ru := range pr.Rules {
+			// (a rule that replaces the component of another processor touches none of the
+			// program's components)
+			if !procs[ru.Target] {
+				return true
+			}
 		}
 	}
 	return false
